@@ -84,6 +84,9 @@ def _rand_case(rng):
                 ch.append({"op": rng.choice(["add_fixed_string", "add_fixed_encoded_string"]), "s": str_codes(s), "len": len(s), "padded": False, "_py": s})
             else:
                 s = rand_str(rng, 8)
+                if rng.random() < 0.02:
+                    # a long chunk (a map name list, a quest text): longer than any recursion or buffer size one might assume
+                    s = "".join(rng.choice("abcdefgh XYZ.,") for _ in range(rng.randrange(1100, 1600)))
                 ch.append({"op": rng.choice(["add_string", "add_encoded_string"]), "s": str_codes(s), "_py": s})
         chunks.append(ch)
         extra = []
